@@ -137,6 +137,10 @@ def run(repo: Repo, rep: Report, tier: str) -> None:
     rep.rule("per-instance-state", "mutable state of the protocol objects is created per instance, never as a class attribute")
     per_instance_state(repo, rep, "per-instance-state", {"ae": ("ApplicationEntity",), "association": ("Association",)})
 
+    # ---- a counted association's thread does not die on peer input ----------------------------------------
+    from .c19 import check_guarded_lookup
+    rep.rule("thread-survives", "no unguarded lookup by a peer-chosen context id in the code the association thread runs (C19's guarded-lookup): a dead thread is not counted although its connection is still open")
+    check_guarded_lookup(repo, rep, "thread-survives")
 
 def _ifs(node):
     from ..loader import parent
